@@ -35,7 +35,8 @@ def _messages():
     from .alphabet import simple_update
     m['UPD_AS2'] = simple_update(65002, as4=False)
     from .alphabet import peer_caps, PEER_ID
-    m['OPEN_OK_ID2'] = wire.open_msg(65002, 90, PEER_ID + 0x01000000, peer_caps())      # the peer changed its router id      # 2-octet AS_PATH: what a peer without the 4-octet capability sends
+    # (... and lists an ADD-PATH capability for IPv6 in front of the others: the 4-octet-AS capability comes last)
+    m['OPEN_OK_ID2'] = wire.open_msg(65002, 90, PEER_ID + 0x01000000, [wire.cap_addpath([(2, 1, 3)])] + peer_caps())      # the peer changed its router id      # 2-octet AS_PATH: what a peer without the 4-octet capability sends
     return m
 
 
@@ -47,15 +48,17 @@ SCENARIO = [
     ('RX', 0, 'BAD_MARKER'), ('CLOSE_DONE', 0),
     ('TICK', 0), ('CONN_OK', 0), ('RX', 0, 'OPEN_OK_ID2'), ('RX', 0, 'KA'), ('RX', 0, 'UPD'), ('REST', 'stat'), ('REST', 'state'),
     # session 4: the peer comes back without any capability (2-octet AS numbers): what sessions 1-3 negotiated is gone
-    ('PEER_CLOSE', 0), ('TICK', 0), ('CONN_OK', 0), ('RX', 0, 'OPEN_NOOPT'), ('RX', 0, 'KA'), ('RX', 0, 'UPD_AS2'), ('REST', 'state'),
+    # (in OpenConfirm it repeats its OPEN, now WITH capabilities: the FSM ignores that OPEN, and so must everything else)
+    ('PEER_CLOSE', 0), ('TICK', 0), ('CONN_OK', 0), ('RX', 0, 'OPEN_NOOPT'), ('RX', 0, 'OPEN_OK'), ('RX', 0, 'KA'), ('RX', 0, 'UPD_AS2'), ('REST', 'state'),
     # session 5: operator stop and start; the new session is up BEFORE the close of the old connection completes (connectionLost of
     # the old protocol object arrives last): nothing of the new session may be touched by it
-    ('OP_STOP',), ('OP_START',), ('CONN_OK', 1), ('RX', 1, 'OPEN_OK'), ('RX', 1, 'KA'), ('CLOSE_DONE', 0),
+    # (and here the ignored second OPEN is the one WITHOUT capabilities)
+    ('OP_STOP',), ('OP_START',), ('CONN_OK', 1), ('RX', 1, 'OPEN_OK'), ('RX', 1, 'OPEN_NOOPT'), ('RX', 1, 'KA'), ('CLOSE_DONE', 0),
     ('RX', 0, 'UPD'), ('REST', 'send_update'), ('REST', 'state'), ('REST', 'stat'),
 ]
-LATE_CLOSE = 38                    # index of the CLOSE_DONE of session 5
+LATE_CLOSE = max(i for i, e in enumerate(SCENARIO) if e == ('CLOSE_DONE', 0))        # the CLOSE_DONE of session 5
 SESSION_STARTS = (1, 10, 19)       # index of the TICK that starts each session
-SESSION4_UPD = 31                  # index of the 2-octet-AS UPDATE of session 4
+SESSION4_UPD = 32                  # index of the 2-octet-AS UPDATE of session 4
 
 
 def _trace(cfg):
